@@ -756,3 +756,88 @@ fn c06_model(mask: u8, op: u8, k: usize, readset: u8) {
     c06_check_reads(&ns, &m, readset);
     std::mem::forget(ns);
 }
+
+// ---------------------------------------------------------------------------------------------
+// C20: ClusterState::apply_delta over key-less sections with arbitrary headers: the returned flag is exactly
+// "some copy was wiped and restarted from version 0" (aggregated over the sections of one message)
+fn c20_scalar(sections: usize) {
+    let mut cs = mk_cluster_state();
+    let (xg, xm): (u64, u64) = (kani::any(), kani::any());
+    let (yg, ym): (u64, u64) = (kani::any(), kani::any());
+    cs.node_states.insert(xid(), bare_state(xg, xm));
+    if sections == 2 { let mut y = empty_state_for(yid()); y.last_gc_version = yg; y.max_version = ym; cs.node_states.insert(yid(), y); }
+    let (xf, xdg, xdm): (u64, u64, u64) = (kani::any(), kani::any(), kani::any());
+    let (yf, ydg, ydm): (u64, u64, u64) = (kani::any(), kani::any(), kani::any());
+    let mut delta = Delta::default();
+    delta.node_deltas.reserve(2);
+    delta.node_deltas.push(NodeDelta { chitchat_id: xid(), from_version_excluded: xf, last_gc_version: xdg, key_values: Vec::new(), max_version: xdm });
+    if sections == 2 { delta.node_deltas.push(NodeDelta { chitchat_id: yid(), from_version_excluded: yf, last_gc_version: ydg, key_values: Vec::new(), max_version: ydm }); }
+    let flag = cs.apply_delta(delta);
+    let x_reset = xf <= xm && !(xdg <= xg || xdg <= xm) && xf == 0;
+    let y_reset = sections == 2 && yf <= ym && !(ydg <= yg || ydg <= ym) && yf == 0;
+    kani::cover!(x_reset && y_reset, "two copies reset by one message");
+    kani::cover!(!x_reset && !y_reset, "no reset");
+    assert!(flag == (x_reset || y_reset), "C20: reset flag must be true iff at least one copy was wiped and restarted from version 0");
+    let xa = snapshot(cs.node_states.get(&xid()).unwrap());
+    if x_reset { assert!(xa.gc == xdg && xa.gc > xg && xa.max == xdm, "C20: reset copy must restart at the sender's watermark"); }
+    assert!((xa.gc, xa.max) >= (xg, xm), "C04: frontier decreased");
+    if sections == 2 {
+        let ya = snapshot(cs.node_states.get(&yid()).unwrap());
+        if y_reset { assert!(ya.gc == ydg && ya.gc > yg, "C20: second copy reset without a strictly higher watermark"); }
+        assert!((ya.gc, ya.max) >= (yg, ym), "C04: frontier decreased (second member)");
+    }
+    std::mem::forget(cs);
+}
+
+// ---------------------------------------------------------------------------------------------
+// C05: a delta section about a member, coming from a source that is not ahead of the copy it is applied to
+// (the owner is always the most advanced copy of its own state), changes nothing at all
+fn c05_not_ahead(mask: u8, n_kv: usize, vmax: u64) {
+    let (mut r, rc) = shaped_state(mask, vmax);
+    kani::assume(rc.gc <= rc.max);                 // an owner's watermark never exceeds its max version
+    let (nd, _spec, dmax) = any_node_delta(n_kv, vmax, true);
+    // honest source: its copy of us is not ahead of us, and it collected no tombstone we have not passed
+    kani::assume(dmax <= rc.max && nd.last_gc_version <= rc.max);
+    let st = r.apply_delta(nd, T0);
+    let a = snapshot(&r);
+    kani::cover!(n_kv > 0, "section with key-values");
+    assert!(st == DeltaStatus::Reject, "C05: a delta that is not ahead of the owner's own state was applied");
+    assert!(a.gc == rc.gc && a.max == rc.max, "C05: gossip changed the owner's frontier");
+    let mut k = 0;
+    while k < 3 { assert!(a.e[k].present == rc.e[k].present && a.e[k].version == rc.e[k].version && a.e[k].status == rc.e[k].status, "C05: gossip changed one of the owner's key-values"); k += 1; }
+    std::mem::forget(r);
+}
+
+// ---------------------------------------------------------------------------------------------
+// C09: deltas only a hostile peer can send (what the decoder admits: strictly increasing versions, max >= last)
+fn c09_hostile_delta(mask: u8, n_kv: usize, vmax: u64) {
+    let (mut r, rc) = shaped_state(mask, vmax);
+    let (nd, _spec, _dmax) = any_node_delta(n_kv, vmax, false);
+    if n_kv > 0 { kani::assume(nd.max_version >= nd.key_values[n_kv - 1].version); }
+    let st = r.apply_delta(nd, T0);       // must not panic (state.rs:236)
+    let a = snapshot(&r);
+    kani::cover!(st == DeltaStatus::ApplyAfterReset, "reset taken");
+    kani::cover!(st == DeltaStatus::Apply, "incremental");
+    assert!((a.gc, a.max) >= (rc.gc, rc.max), "C09: hostile delta lowered the frontier (would trip the monotonicity assert in ClusterState::apply_delta)");
+    std::mem::forget(r);
+}
+
+// ---------------------------------------------------------------------------------------------
+// C12 / C07: members scheduled for deletion are left out of the digest; everyone else is in, verbatim
+fn c12_digest(two: bool) {
+    let mut cs = mk_cluster_state();
+    let (xg, xm, xh): (u64, u64, u64) = (kani::any(), kani::any(), kani::any());
+    let mut xs = bare_state(xg, xm); xs.heartbeat = Heartbeat(xh);
+    cs.node_states.insert(xid(), xs);
+    if two { cs.node_states.insert(yid(), empty_state_for(yid())); }
+    let (x, y) = (xid(), yid());
+    let mut sched: HashSet<&ChitchatId> = HashSet::default();
+    let x_sched: bool = kani::any(); let y_sched: bool = if two { kani::any() } else { false };
+    if x_sched { sched.insert(&x); }
+    if y_sched { sched.insert(&y); }
+    let d = cs.compute_digest(&sched);
+    kani::cover!(x_sched, "one member scheduled for deletion");
+    assert!(d.node_digests.contains_key(&x) == !x_sched && d.node_digests.contains_key(&y) == (two && !y_sched), "C12: digest must list exactly the members not scheduled for deletion");
+    if !x_sched { let nd = d.node_digests.get(&x).unwrap(); assert!(nd.heartbeat == Heartbeat(xh) && nd.last_gc_version == xg && nd.max_version == xm, "C03/C12: digest entry differs from the copy's heartbeat / watermark / max version"); }
+    std::mem::forget(cs); std::mem::forget(d); std::mem::forget(sched);
+}
